@@ -112,4 +112,15 @@ Section Value.
     (sgn (fst nt) (term_coef (snd nt)), term_pow (snd nt)).
 
   Definition terms_of (src : usrc) : list (T * nat) := map term_val src.
+
+  (* VALUE-side side condition since 59b028d: every numeral that is written out denotes a
+     finite number in the instance (always true in R and Z; in f64: not beyond ~1.8e308).
+     The sums of like powers must be finite as well: [sums_finite (terms_of src)] of Model/Parse.v. *)
+  Definition term_finite (nt : bool * uterm) : bool :=
+    match snd nt with
+    | UConst d => is_finite (sgn (fst nt) (dec_val d))
+    | UVar (Some d) _ => is_finite (sgn (fst nt) (dec_val d))
+    | UVar None _ => true
+    end.
+  Definition src_finite (src : usrc) : bool := forallb term_finite src.
 End Value.
